@@ -249,6 +249,11 @@ func (c *Ctx) ruleIndexSrc(builders ...string) {
 									}
 								}
 							}
+							// pass.Pkg == nil: a hand-built pass without a package has nothing to index at all (the
+							// guard iterOverPackages itself starts with, also when a caller asks first)
+							if v := nilCheckedValue(l); v != nil && !l.Pos && strings.HasSuffix(P.Desc(v), "golang.org/x/tools/go/analysis.Pass.Pkg)") {
+								continue
+							}
 							extra = append(extra, short(l.String()))
 						}
 						if !kindOK {
